@@ -245,6 +245,7 @@ const KINDS: &[&str] = &[
     "utc_open_file",
     "update_options",
     "flags_time",
+    "file_info",
 ];
 
 fn bit(x: u64, k: u32) -> bool {
@@ -303,6 +304,49 @@ pub fn run_struct(c: &SCase) -> CaseOut {
             let f = ffi::HeaderInfo::from(h);
             if f.variation() != fv || f.is_event() != bit(b, 0) || f.has_flags() != bit(b, 1) {
                 fail(&mut out, kind, format!("variation {:?} is_event {} has_flags {} crosses as {:?} {} {}", fv, bit(b, 0), bit(b, 1), f.variation(), f.is_event(), f.has_flags()));
+            }
+        }
+        "file_info" => {
+            // a file descriptor received from an outstation: the name is whatever UTF-8 the peer sent - spaces, non-ASCII
+            // characters, and NUL characters, which a C string cannot hold
+            let alphabet = ['a', 'Z', '.', '/', ' ', 'é', '\u{4e2d}', '\0', '_', '7'];
+            let len = (a % 9) as usize;
+            let name: String = (0..len).map(|k| alphabet[((b >> (4 * k)) & 0xF) as usize % alphabet.len()]).collect();
+            let set = |k: u32| PermissionSet { execute: bit(cc, k), write: bit(cc, k + 1), read: bit(cc, k + 2) };
+            let ft = if bit(a, 8) { FileType::Directory } else { FileType::File };
+            let info = FileInfo {
+                name: name.clone(),
+                file_type: ft,
+                size: (a >> 16) as u32,
+                time_created: Timestamp::new(cc >> 16),
+                permissions: Permissions { world: set(0), group: set(3), owner: set(6) },
+            };
+            let mut it = crate::FileInfoIterator::new(vec![info].into_iter());
+            match it.next() {
+                None => fail(&mut out, kind, "the iterator yields nothing for one entry".into()),
+                Some(f) => {
+                    let got = unsafe { std::ffi::CStr::from_ptr(f.file_name) }.to_string_lossy().to_string();
+                    if name.contains('\0') {
+                        out.label("file_name_with_nul");
+                        // what a C string can keep of it: at least the part before the first NUL, nothing invented
+                        let head: String = name.chars().take_while(|c| *c != '\0').collect();
+                        if !got.starts_with(&head) || got.chars().count() > name.chars().count() {
+                            fail(&mut out, kind, format!("name {:?} crosses as {:?}", name, got));
+                        }
+                    } else if got != name {
+                        fail(&mut out, kind, format!("name {:?} crosses as {:?}", name, got));
+                    }
+                    let want_ft: ffi::FileType = ft.into();
+                    let want_raw: i32 = want_ft.into();
+                    if f.file_type != want_raw || f.size != (a >> 16) as u32 || f.time_created != (cc >> 16) & 0xFFFF_FFFF_FFFF {
+                        fail(&mut out, kind, format!("type/size/time cross as {:?} {} {}", f.file_type, f.size, f.time_created));
+                    }
+                    let flat = |p: &ffi::PermissionSet| (p.execute, p.write, p.read);
+                    let want = |k: u32| (bit(cc, k), bit(cc, k + 1), bit(cc, k + 2));
+                    if flat(&f.permissions.world) != want(0) || flat(&f.permissions.group) != want(3) || flat(&f.permissions.owner) != want(6) {
+                        fail(&mut out, kind, "permissions".into());
+                    }
+                }
             }
         }
         "permissions" => {
@@ -572,7 +616,7 @@ impl Prop for Structs {
     const ID: &'static str = "C20";
     const NAME: &'static str = "structs";
     fn rule() -> &'static str {
-        "configuration, header and status structures crossing the boundary (IIN octets, response/request headers, header info with every variation, file permissions both ways, class-zero / event-buffer / feature / application-IIN configuration, restart delays both ways, association configuration with all class sets, timeouts and retry strategy, connect strategy, file read configuration, decode levels both ways, control relay output blocks both ways, buffer state counts, UTC timestamps, update options, flags and times) with generated field values; each field must arrive in its namesake with its value; every case is non-trivial"
+        "configuration, header and status structures crossing the boundary (IIN octets, response/request headers, header info with every variation, file permissions both ways, class-zero / event-buffer / feature / application-IIN configuration, restart delays both ways, association configuration with all class sets, timeouts and retry strategy, connect strategy, file read configuration, decode levels both ways, control relay output blocks both ways, buffer state counts, UTC timestamps, update options, flags and times, file descriptors with arbitrary UTF-8 names incl. NUL) with generated field values; each field must arrive in its namesake with its value; every case is non-trivial"
     }
     fn strategy(_tier: Tier) -> BoxedStrategy<SCase> {
         (0u8..KINDS.len() as u8, any::<u64>(), any::<u64>(), any::<u64>()).prop_map(|(kind, a, b, c)| SCase { kind, a, b, c }).boxed()
